@@ -93,27 +93,36 @@ def _exc(e):
 
 
 class Workdir(object):
-    """a scratch directory under .build/c14 holding the files of one case"""
-    _n = 0
+    """the scratch directory (one per process, under .build/c14) holding the files of one case;
+    every case writes all of its files, nothing of an earlier case is ever referenced"""
+    _path = None
+    _written = {}
 
     def __init__(self, files, tag=''):
-        Workdir._n += 1
-        self.path = os.path.join(SCRATCH, '%d-%s%d' % (os.getpid(), tag, Workdir._n))
-        os.makedirs(self.path)
+        if Workdir._path is None or not os.path.isdir(Workdir._path):
+            Workdir._path = os.path.join(SCRATCH, 'w%d' % os.getpid())
+            os.makedirs(Workdir._path, exist_ok=True)
+            Workdir._written = {}
+        self.path = Workdir._path
         for f in files[1:]:
-            with open(os.path.join(self.path, f['name']), 'w', encoding='utf-8') as fh:
-                fh.write(G.source(f))
+            self._put(f['name'], G.source(f))
         self.files = files
+
+    def _put(self, name, text):
+        # the file system is slow: a file is rewritten only when its content changes
+        if Workdir._written.get(name) != text:
+            with open(os.path.join(self.path, name), 'w', encoding='utf-8') as fh:
+                fh.write(text)
+            Workdir._written[name] = text
 
     def write_root(self, absolute):
         f = self.files[0]
         src = G.source(f, self.path if absolute else None)
-        with open(os.path.join(self.path, f['name']), 'w', encoding='utf-8') as fh:
-            fh.write(src)
+        self._put(f['name'], src)
         return src
 
     def close(self):
-        shutil.rmtree(self.path, ignore_errors=True)
+        pass
 
 
 def observe(case, cfg=None, wd=None):
@@ -747,7 +756,8 @@ def corpus_cases():
 def shard(arg):
     seed, idx, nshards, nrandom, thorough = arg
     res = Result()
-    cases = [c for i, c in enumerate(G.enumerate_cases(thorough)) if i % nshards == idx]
+    # chunks of consecutive cases (they share their files) go to the same shard
+    cases = [c for i, c in enumerate(G.enumerate_cases(thorough)) if (i // 48) % nshards == idx]
     rng = random.Random('%s/%s/C14' % (seed, idx))
     cases += [G.random_case(rng) for _ in range(nrandom)]
     if idx == 0:
